@@ -69,6 +69,35 @@ func HostsLines(thorough bool) []Family {
 				}
 			}})
 	}
+	if thorough {
+		// three names over reduced pools: the invalid name at every index, every separator pattern
+		n3 := []string{"host", "a.b", "bad._host", "-a.com", "é.com", "a\r", "x.123", "UPPER.Case", "a..b", "\xff.com", "h", "com."}
+		s3 := []string{" ", "\t", "  ", " \t", "\v", "\r"}
+		a3 := []string{"1.2.3.4", "::1", "fe80::1%eth0", "1.2.3"}
+		t3 := []string{"", " ", "\r", " #c", "\t#"}
+		per := len(n3) * len(s3)
+		total := len(a3) * len(t3) * per * per * per
+		fams = append(fams, Family{Name: "line_3names", N: total, Exhaustive: "hosts lines with three names: 4 addresses x (6 separators x 12 names)^3 x 5 trails",
+			Gen: func(lo, hi int, _ *rand.Rand, emit func(string)) {
+				var sb strings.Builder
+				for i := lo; i < hi; i++ {
+					x := i
+					sb.Reset()
+					sb.WriteString(a3[x%len(a3)])
+					x /= len(a3)
+					tr := t3[x%len(t3)]
+					x /= len(t3)
+					for j := 0; j < 3; j++ {
+						sb.WriteString(s3[x%len(s3)])
+						x /= len(s3)
+						sb.WriteString(n3[x%len(n3)])
+						x /= len(n3)
+					}
+					sb.WriteString(tr)
+					emit(sb.String())
+				}
+			}})
+	}
 	// 3..5 names, sampled, with the invalid one at every index
 	fams = append(fams, Random("line_manynames", pick(300_000, 6_000_000), func(rng *rand.Rand) string {
 		var sb strings.Builder
